@@ -89,8 +89,8 @@ def judge_keys(case, acc, ctx):
             if raised is not None:
                 if default:
                     raise Violation(f"keys --type {r['type']} --encoding {r['enc']} with default formats failed: {type(raised).__name__}: {str(raised)[:200]}", "a key pair", bucket="default-failed")
-                if case.get("route") != "cli" and type(raised).__name__ != "GeneratorError":
-                    raise Violation(f"unsupported combination {r} reported as {type(raised).__name__} instead of the tool's error type", "GeneratorError", bucket="error-type")
+                # the property says "reports ... as an error": any exception / non-zero exit counts; the type is recorded, not judged
+                acc.note(f"unsupported_reported_as:{type(raised).__name__}")
                 if {k: v for k, v in after.items()} != before:
                     raise Violation(f"unsupported combination {r} was refused but key files were written/changed: {sorted(set(after) ^ set(before)) or 'content changed'}", "no key files", bucket="files-on-error")
                 continue
